@@ -294,7 +294,8 @@ func calcSegmentAvailabilityTime(a *asset, rep *RepData, nr uint32, cfg *Respons
 		return int64(cfg.StartTimeS) * 1000, nil
 	}
 	segAvailTimeS -= ato
-	milliSeconds := int64(segAvailTimeS * 1_000)
+	// First millisecond at which the segment is available (a truncated value may be 1ms too early)
+	milliSeconds := int64(math.Ceil(segAvailTimeS*1_000 - timeCompareEpsilonS*1_000))
 	return milliSeconds, nil
 }
 
